@@ -520,4 +520,40 @@ theorem C11_framer_period_stamps (P : Int) (hP : 0 < P) (k : Nat) (hk : 1 ≤ k)
 example : framerStamps (2 : Int) 6 10 = [0, 6, 12, 18] ∧ framerStamps (2 : Int) 3 6 = [0, 4, 6, 10] := by
   decide
 
+/-! ## a clock that does not advance: `recurred` counts iterations, not time
+
+All theorems of the first part quantify over ARBITRARY lists of store stamps — increasing, constant
+(tick period 0 "asap"; a start stamp so large that `stamp + P = stamp` in binary64; a framer iterated
+twice in one tick) or even decreasing.  Spelled out for the counter: -/
+
+/-- **`recurred` is the number of completed iterations since the outline last changed, whatever the
+store stamps are** (no monotonicity assumed), for every decision function (conditional auxiliaries
+included) -/
+theorem C11_recurred_counts_iterations_any_clock {τ σ : Type} [Sub τ] [LE τ] [LT τ] [DecidableLE τ] [DecidableLT τ]
+    [OfNat τ 0] (d : τ → σ → St τ → Option Nat × σ) (x0 : σ) (nows : List τ)
+    (pre : List (Obs τ)) (oe : Obs τ) (mid : List (Obs τ)) (oi : Obs τ) (post : List (Obs τ))
+    (h : runG d x0 nows = pre ++ oe :: (mid ++ oi :: post))
+    (he : oe.entered = true) (hm : ∀ m ∈ mid, m.entered = false) :
+    oi.evalRecurred = some (mid.length + 1) :=
+  (C11_clocks_any_decision d x0 nows pre oe mid oi post h he hm).2
+
+/-- with tick period 0 every tick has the start stamp -/
+theorem C11_zero_tick_period_constant_stamp (b : Int) (n : Nat) : stampsB b 0 n = List.replicate n b := by
+  have h : ∀ k : Nat, stampAtB b 0 k = b := by
+    intro k; induction k with
+    | zero => rfl
+    | succ k ih => simp [stampAtB, ih]
+  unfold stampsB
+  induction n with
+  | zero => rfl
+  | succ n ih => rw [List.range_succ, List.map_append, ih, List.replicate_succ']; simp [h]
+
+/-- non-vacuity: all ticks at store stamp 7 (period 0): `repeat 3` still leaves after 3 iterations, the
+elapsed stays 0, `timeout 0` leaves at the first evaluation -/
+example :
+    (resolve (τ := Int) [⟨none, [.rep 3]⟩, ⟨none, [.timeout 0]⟩, ⟨none, []⟩]).toOption.map
+      (fun prog => (run (transOf prog) (stampsB 7 0 7)).map (fun o => (o.after.active, o.after.elapsed, o.after.recurred)))
+    = some [(0, 0, 0), (0, 0, 1), (0, 0, 2), (1, 0, 0), (2, 0, 0), (2, 0, 1), (2, 0, 2)] := by
+  decide
+
 end Ioflo.FloClock
